@@ -41,7 +41,7 @@ def run_raire(case, earlier_search=False):
     cvrs = si.raire_cvrs(case)
     # the reported winner is the function's `winner` argument; the Contest object may carry another (e.g. stale) value
     attr_winner = case["winner"] if len(case["ballots"]) % 3 else case["cands"][0]
-    contest = RContest("c", list(case["cands"]), attr_winner, total_ballots(case), order=case["order_hint"] or [])
+    contest = RContest(case.get("contest_name", "c"), list(case["cands"]), attr_winner, total_ballots(case), order=case["order_hint"] or [])
     f = getattr(sample_estimator, case["asn"])
     if earlier_search:
         # the same Contest object and CVR mapping were searched before with the other difficulty function
